@@ -55,6 +55,9 @@ inductive Item
   | x (reqClose : Bool) (rq : ReqB) (rs : ResB) (org : Org)           -- non-CONNECT exchange
   | connectMitm (tls : Bool) (rq : ReqB) (rs : ResB)                  -- CONNECT with MITM configured; first tunnel byte is (not) a TLS handshake
   | connectBlind (dialOk : Bool) (rq : ReqB) (rs : ResB)              -- CONNECT without MITM
+  | connectMitmFail (rq : ReqB) (rs : ResB)                           -- CONNECT with MITM configured; the first tunnel byte is a TLS
+                                                                      -- handshake record and the handshake FAILS (the client rejects the
+                                                                      -- forged certificate, no common version, …) without closing TCP
   deriving Repr, DecidableEq
 
 /-- Per-connection state threaded through the loop. -/
@@ -139,6 +142,20 @@ def handleMitm (s : St) (i c : Nat) (tls : Bool) (rq : ReqB) (rs : ResB) : List 
     -- and from here on `handle` is given that connection
     .again (if tls then { secure := true, connTls := true, sessTls := true, tlsId := i + 2 } else s'))
 
+/-- CONNECT with MITM configured whose TLS handshake fails: `tlsconn.Handshake()` returns an error,
+the callback runs, `handle` returns that error - which is not closeable, so the serving loop (of the
+listener connection, or of the enclosing tunnel) goes on with the connection it had. Nothing was
+re-pointed (`brw.Reset`, `session.setConn` come after the handshake) and nothing was marked: the
+session state is exactly what a request leaves behind. The CONNECT's context is unlinked at once
+(`defer unlink` runs when `handle` returns; no tunnel is being served). -/
+def handleMitmFail (s : St) (i c : Nat) (rq : ReqB) (rs : ResB) : List Ev × Next :=
+  let s' := stAfter s
+  let p := pre s i c rq
+  if rq = .hijack then (p ++ [.hijacked i s.sessTls (hijTid s), .unlink c], .hijack) else
+  let post := [Ev.resmod i c 200] ++ (if rsErr rs then [Ev.warnRes i] else [])
+  if rs = .hijack then (p ++ post ++ [.hijacked i s.sessTls (hijTid s), .unlink c], .hijack) else
+  (p ++ post ++ [.write i 200 false true, .unlink c], .again s')
+
 /-- CONNECT without MITM. -/
 def handleBlind (s : St) (i c : Nat) (dialOk : Bool) (rq : ReqB) (rs : ResB) : List Ev × Next :=
   let s' := stAfter s
@@ -156,6 +173,7 @@ def handleItem (shutdown : Bool) (s : St) (i c : Nat) : Item → List Ev × Next
   | .x rc rq rs org => handleX shutdown s i c rc rq rs org
   | .connectMitm tls rq rs => handleMitm s i c tls rq rs
   | .connectBlind ok rq rs => handleBlind s i c ok rq rs
+  | .connectMitmFail rq rs => handleMitmFail s i c rq rs
 
 /-- A MITM CONNECT whose tunnel is being served keeps its context linked (`defer unlink`). -/
 def nextOpen (c : Nat) (opn : List Nat) : Item → List Nat
